@@ -185,11 +185,17 @@ func (ex *Exec) callR(fn func() error) (err error) {
 	defer ex.g.flushDeletes()
 	defer func() {
 		if r := recover(); r != nil {
+			if es, ok := r.(endlessScan); ok {
+				ex.violate("never-blocks-forever", "endless-scan:concurrent-call", "a call never returned: more than %d storage calls in one API call (last: %s %s)", es.calls, es.kind, es.file)
+				err = fmt.Errorf("endless scan")
+				return
+			}
 			st := stackOf()
 			ex.violate("no-panic", "panic:"+panicClass(fmt.Sprint(r), st), "concurrent call panicked: %v\n%s", r, trimStack(st))
 			err = fmt.Errorf("panic: %v", r)
 		}
 	}()
+	ex.g.callSeams = 0
 	return fn()
 }
 
